@@ -240,7 +240,10 @@ def _c03(h):
                 try:
                     SX & SY  # splits both operands' boundaries at the crossings
                     for jd in SY.jordans:
-                        lp = [(exact(sg.ctrlpoints[0][0]) / SCALE[typ], exact(sg.ctrlpoints[0][1]) / SCALE[typ]) for sg in jd.segments]
+                        # (float vertices are snapped to the lattice they were generated on; crossings of lattice lines
+                        #  have denominators dividing 3)
+                        snap = lambda v_: (exact(v_) / SCALE[typ]).limit_denominator(1000)
+                        lp = [(snap(sg.ctrlpoints[0][0]), snap(sg.ctrlpoints[0][1])) for sg in jd.segments]
                         truth_j = _loop_in_closed_region(lp, A)
                         got_j = jd in SX
                         h.ensure("curve-in-shape-means-every-point-of-the-curve", got_j is truth_j, detail=f"{label} type={typ}: boundary curve of B (split at its crossings) in A: library {got_j}, truth {truth_j}")
